@@ -650,7 +650,18 @@ int fstack_entry(struct uftrace_task_reader *task, struct uftrace_record *rstack
 			}
 			else if (strstr(fixup->name, "fork") || !strcmp(fixup->name, "daemon") ||
 				 !strcmp(fixup->name, "posix.fork")) {
-				task->fork_display_depth = task->display_depth + 1;
+				/*
+				 * the display depth of this call: it is derived from the
+				 * stack count below when it is not set (after LOST).
+				 */
+				int depth = task->display_depth;
+
+				if (!task->display_depth_set) {
+					depth = task->stack_count - 1;
+					if (depth < 0)
+						depth = 0;
+				}
+				task->fork_display_depth = depth + 1;
 			}
 		}
 
